@@ -60,19 +60,23 @@ Representable(w, K, header) ==
 \* there cannot be written at all
 StartsAtMarker(w, K, header) == Len(w.data) > 0 /\ w.addr + Shift(K, header) = K.eof
 
-\* Records tile the written blocks exactly once and in write order:
-\* walk records and writes together; (w, k) = current write and bytes of it already covered.
-RECURSIVE Tiles(_, _, _, _, _, _)
-Tiles(recs, j, writes, w, k, sh) ==
-    IF w > Len(writes) THEN j > Len(recs)
-    ELSE IF k = Len(writes[w].data) THEN Tiles(recs, j, writes, w + 1, 0, sh)      \* block done (or empty)
+\* Records cover the written blocks exactly once and in write order: walking records and writes together,
+\* (j, m) = current record and bytes of it already matched, (w, k) = current write and bytes of it already covered.
+\* A record may end inside a block (a split) and may run on into the next block when that block starts exactly
+\* where the previous one ended (adjacent writes merged into one record): the bytes a patcher writes, and their
+\* order, are the same.
+RECURSIVE Tiles2(_, _, _, _, _, _, _)
+Tiles2(recs, j, m, writes, w, k, sh) ==
+    IF w > Len(writes) THEN (j > Len(recs) \/ (j = Len(recs) /\ m = Len(recs[j].data)))
+    ELSE IF k = Len(writes[w].data) THEN Tiles2(recs, j, m, writes, w + 1, 0, sh)      \* block done (or empty)
     ELSE IF j > Len(recs) THEN FALSE
-    ELSE LET r == recs[j] n == Len(r.data) IN
-         /\ n > 0
-         /\ r.off = writes[w].addr + sh + k
-         /\ k + n <= Len(writes[w].data)
-         /\ r.data = SubSeq(writes[w].data, k + 1, k + n)
-         /\ Tiles(recs, j + 1, writes, w, k + n, sh)
+    ELSE IF m = Len(recs[j].data) THEN (m > 0 /\ Tiles2(recs, j + 1, 0, writes, w, k, sh))
+    ELSE LET r == recs[j]
+             n == Min(Len(r.data) - m, Len(writes[w].data) - k) IN
+         /\ r.off + m = writes[w].addr + sh + k
+         /\ SubSeq(r.data, m + 1, m + n) = SubSeq(writes[w].data, k + 1, k + n)
+         /\ Tiles2(recs, j, m + n, writes, w, k + n, sh)
+Tiles(recs, j, writes, w, k, sh) == Tiles2(recs, j, 0, writes, w, k, sh)
 
 RecordsValid(recs, K) == \A j \in 1..Len(recs) : Len(recs[j].data) \in 1..K.maxrec /\ recs[j].off # K.eof
 
